@@ -1,7 +1,7 @@
 """Shared harness for the Model state machine (coq/Model/ModelSM.v): C08, C09, C10, C13.
 
 A case = {'seed', 'mcmeta', 'base': [[name, cmeta|None, init|None], ...], 'pool': [eq spec, ...], 'ops': [...]}
-  eq spec = {'lhs': ['v', i] | ['d', y, t, order] | ['d2', y, t, u] | ['o', tree], 'rhs': tree}   (trees: tools/bridge.py format,
+  eq spec = {'lhs': ['v', i] | ['d', y, t, order] | ['d2', y, t, u] | ['o', tree] | ['s', i, dummy?], 'rhs': tree}   (trees: tools/bridge.py format,
             variable leaves index the base variables; quantity leaves [2, id, Fraction, 0])
   ops: ['addvar', name, cmeta|None, init|None]  ['rmvar', v]  ['addeq', e, check]  ['rmeq', e]  ['addcmeta', v]
        ['transfer', a, b]  ['triple', v-or-id-string, p, o]
@@ -106,6 +106,9 @@ class Impl(object):
             lhs = sympy.Derivative(self.objs[l[1]], (self.objs[l[2]], l[3]), evaluate=False)
         elif l[0] == 'd2':
             lhs = sympy.Derivative(self.objs[l[1]], self.objs[l[2]], self.objs[l[3]], evaluate=False)
+        elif l[0] == 's':
+            # not a variable of the model, but an atom carrying the NAME of one (an invalid left-hand side)
+            lhs = (sympy.Dummy if l[2] else sympy.Symbol)(self.objs[l[1]].name)
         else:
             lhs = self.tree(l[1])
         return sympy.Eq(lhs, self.tree(spec['rhs']), evaluate=False)
@@ -622,8 +625,10 @@ def gen_case(seed, profile='edit'):
             lhs = ['d', y, tvar, 2]
         elif r < 0.9:
             lhs = ['d2', y, tvar, (tvar + 1) % nbase]
-        else:
+        elif r < 0.95:
             lhs = ['o', [4, [3, y], [3, (y + 1) % nbase]]]
+        else:
+            lhs = ['s', y, e % 2]
         # the model identifies equations by pool index, SymPy by structure (list.remove uses ==): keep the pool free of
         # structurally equal equations (only possible when no quantity, which has a unique id, occurs)
         for _ in range(8):
